@@ -362,9 +362,11 @@ impl AsServer<'_> {
                     .position(|p| matches!(p, Protocol::Ip4(_) | Protocol::Ip6(_)))?;
                 let mut addr = addr.replace(i, |_| Some(observed_ip.clone()))?;
 
-                let is_valid = addr.iter().all(|proto| match proto {
+                let is_valid = addr.iter().enumerate().all(|(j, proto)| match proto {
                     Protocol::P2pCircuit => false,
                     Protocol::P2p(peer_id) => peer_id == peer,
+                    // Only the replaced component may name an ip.
+                    Protocol::Ip4(_) | Protocol::Ip6(_) => j == i,
                     _ => true,
                 });
 
